@@ -194,10 +194,9 @@ Proof.
   - inversion HF as [|? ? Hx HF']; subst. cbn [map]. rewrite concat_empty_cons. rewrite !append_assoc.
     cbn [append flat_map]. rewrite <- app_assoc. apply step_white; [exact Hspace|].
     apply Hx.
-    + destruct (map (fun a : A => " " +++ pr a) r) as [|z zs] eqn:E.
-      * cbn [String.concat append]. apply delim_rp.
-      * rewrite concat_empty_cons. destruct r as [|r0 r1]; [discriminate|]. cbn [map] in E. inversion E; subst.
-        rewrite append_assoc. cbn [append]. apply delim_space.
+    + destruct r as [|r0 r1].
+      * cbn [map String.concat append]. apply delim_rp.
+      * cbn [map]. rewrite concat_empty_cons. rewrite append_assoc. cbn [append]. apply delim_space.
     + apply IH. exact HF'.
 Qed.
 
